@@ -209,3 +209,27 @@ func vTransOK(t pr.SDimensions) bool {
 //@   props C14
 //@   modifies anything
 //@   ensures[corner-without-dots] dashes == 0 ==> result0 == line + 1 && result1 == 0
+
+// C14 (painting is always preceded by path construction): a rectangular border is painted with the even-odd
+// rule between an outer and an inner rectangle, so every Paint comes after the rectangles of ITS ring have
+// been added (two per ring; the double style adds its two middle rectangles to the same path), and the ring
+// of a solid border lies between the border box and the border box shrunk by the four widths.
+//@ func (drawContext).drawRectBorder
+//@   props C14
+//@   modifies anything
+//@   call Paint#1 assert[outer-half-ring] calls(Rectangle) == 2 && arg1 == backend.FillEvenOdd
+//@   call Paint#2 assert[inner-half-ring] calls(Rectangle) == 4 && arg1 == backend.FillEvenOdd
+//@   call Paint#3 assert[ring] calls(Rectangle) == ite(style == "double", 4, 2) && arg1 == backend.FillEvenOdd
+//@   call Rectangle#5 assert[border-box] arg1 == box[0] && arg2 == box[1] && arg3 == box[2] && arg4 == box[3]
+//@   call Rectangle#8 assert[padding-box] arg1 == box[0] + widths[3] && arg2 == box[1] + widths[0] && arg3 == box[2] - widths[3] - widths[1] && arg4 == box[3] - widths[0] - widths[2]
+
+// the same for rounded borders: each Paint follows the rounded paths of its ring
+//@ func (drawContext).drawRoundedBorder
+//@   props C14
+//@   modifies anything
+//@   call Paint#1 assert[outer-half-ring] calls(roundedBoxPath) == 2 && arg1 == backend.FillEvenOdd
+//@   call Paint#2 assert[inner-half-ring] calls(roundedBoxPath) == 4 && arg1 == backend.FillEvenOdd
+//@   call Paint#3 assert[ring] calls(roundedBoxPath) == ite(style == "double", 4, 2) && arg1 == backend.FillEvenOdd
+//@   call roundedBoxPath#1 assert arg0 == ctx.dst
+//@   call roundedBoxPath#5 assert arg0 == ctx.dst
+//@   call roundedBoxPath#8 assert arg0 == ctx.dst
